@@ -7,7 +7,7 @@ UNIT_NOTES = {
     "rawtx": "C08 what a signed raw transaction turns into: TxInfo::{from_inscription, from_raw_transaction, from_saved_transaction, to_address_optional} and get_info_from_raw_tx on their real bodies (alloy RLP decoding, signature recovery and keccak as uninterpreted functions of their inputs)",
     "codec_trace": "C14 record codec of the recursive TraceED (enc / dec read off the real impls, N37); Vec<TraceED> is an assumed leaf here",
     "dbslot": "C09 engine database slot: the three closures that run the EVM (read_contract, read_contract_multi, add_tx_to_block) lifted into functions; mem::take ... mem::swap puts the database back on every exit path",
-    "codec": "L1 codecs against injected enc/dec: real impl bodies of u8, Option<T>, (T,U), Vec<T> (=> codec_ok / codec_law lemmas); BlockHistoryCacheData<V> encode/decode bodies with map level round-trip lemmas; record codecs AccountInfoED, LogED, TxED, TxReceiptED with enc / dec read off the real impls on every run (N37) and the generated law lemmas prop_record_<S>",
+    "codec": "L1 codecs against injected enc/dec (and the constructors TxED::new / TxReceiptED::new): real impl bodies of u8, Option<T>, (T,U), Vec<T> (=> codec_ok / codec_law lemmas); BlockHistoryCacheData<V> encode/decode bodies with map level round-trip lemmas; record codecs AccountInfoED, LogED, TxED, TxReceiptED with enc / dec read off the real impls on every run (N37) and the generated law lemmas prop_record_<S>",
     "scalars": "L5 scalar kernels: get_gas_limit, get_inscription_byte_len, get_evm_spec, use_rlp_hash_for_tx_hash, generate_block_hash (+ lemma: parked transactions keep at most their allowance)",
     "precompile": "C09 build_lock_script of the locked-pkscript helper: panic-freedom for every pkscript and lock count",
     "evmctx": "C19 engine/evm.rs get_evm over shim structs with revm's public field names",
@@ -130,11 +130,11 @@ PROPS["C05"] = {
     "assumptions": ["closure bodies passed to SharedData::write_fn are outside the proof (N10)", "sequential model of SharedData"],
 }
 PROPS["C06"] = {
-    "units": ["dbfacade", "scalars", "engine", "txstore", "rawblock", "table", "blockdb"],
+    "units": ["dbfacade", "scalars", "engine", "txstore", "rawblock", "table", "blockdb", "codec"],
     "kani": [],
     "level_text": "Proof on Brc20ProgDatabase::set_tx_receipt: after Ok the transaction row, the receipt row, the (block,index)->hash row and the inscription->hash row all carry the same hash, block hash, block number and index; set_block_hash: number->hash and hash->number invert each other; LogED::new_vec: log indexes run contiguously from the start index and every log carries its transaction's hash, index, block hash and number; get_block_tx_count = number of (block,index) rows of the block; generate_block on its real body: the block lists exactly the transaction hashes recorded under (block, 0), (block, 1), .. in index order, its count field is their number, it carries the number and hash it was generated for, its parent is the recorded hash of the previous block (zero for block 0) and a missing parent is an error; add_tx_to_block stores transaction, receipt and trace under get_tx_hash(tx, account nonce) (site precondition) and get_tx_hash is the keccak of sender, nonce, target, data (functional postcondition); the tail of add_tx_to_block's closure (lifted, unit txstore): the receipt is stored with the block's running gas total INCLUDING this transaction as cumulative gas and with the block's running log count BEFORE it as first log index, under the hash / index / number / nonce / gas limit of this transaction; afterwards the running totals have advanced by exactly this transaction (one more waiting transaction, gas, logs), and the receipt handed back is the one the store serves; finalise_block's closure (lifted, unit txstore): the block record stored under the number is the one generated for exactly the supplied hash / number / timestamp and the gas total of the block being built, the raw block is the raw form of that record, and the hash - which is what makes the block visible - is recorded last, after the record, the raw block and the pruning of the pool; the two closures of RawBlock::new (lifted, unit rawblock): a raw receipt carries the stored receipt's cumulative gas, status, logs and bloom, a raw transaction the stored nonce, target, value, input, chain id, gas limit and signature; eth_getLogs order (C18).",
     "level_note": COMMON_TRUST + "Narrow. Rule N29 keeps only the index arguments of TxReceiptED::new / TxED::new (the other arguments are revm/alloy values). NOT covered: bloom and merkle root (dropped from generate_block by N13: uninterpreted libraries), the header literal of RawBlock::new and the RLP encoding itself (alloy), the generate_raw_block body.",
-    "assumptions": ["N29: constructors reduced to their index arguments; BlockResponseED::new assumed to store hash / count / number / transactions / parent hash in the fields of that name", "generate_raw_block not under contract", "U128ED compares as its encoding does (Kani u128ed_order)"],
+    "assumptions": ["N29: in units dbfacade / engine the constructors TxED::new / TxReceiptED::new are reduced to their index arguments (what they store is proved in unit codec); BlockResponseED::new assumed to store hash / count / number / transactions / parent hash in the fields of that name", "generate_raw_block not under contract", "U128ED compares as its encoding does (Kani u128ed_order)"],
 }
 PROPS["C08"] = {
     "units": ["engine", "dbfacade", "rawtx", "txstore", "table"],
@@ -164,9 +164,9 @@ PROPS["C14"] = {
     "units": ["codec", "codec_trace"],
     "kani": ["u64_roundtrip", "u64_order", "u32_roundtrip", "u64ed_matches_u64", "option_u64_roundtrip", "tuple_u64_u32_roundtrip", "u8ed_roundtrip", "b256ed_roundtrip", "addressed_roundtrip"],
     "kani_thorough": ["u128ed_roundtrip", "u128ed_order", "nidx_key_order", "u256ed_roundtrip", "u512ed_roundtrip"],
-    "level_text": "Verus (unbounded): real impl bodies of the u8 / Option<T> / (T,U) codecs satisfy `encode appends exactly enc(v)` and `decode returns dec(bytes, offset)`, with the round-trip law codec_ok (decode of an encoding anywhere inside a buffer gives the value back and consumes exactly its bytes: lossless and self-delimiting) proved generically; Vec<T> (u32 length prefix) encode/decode bodies verified as trait impls, BlockHistoryCacheData<V> encode/decode bodies verified with round-trip lemmas over version maps; the law with a domain (codec_law: every storable value decodes back to itself, consuming exactly its bytes, anywhere in a buffer) proved for Option / pair / Vec and, by rule N37, for the record codecs AccountInfoED, LogED, TxED, TxReceiptED and TraceED: their abstract encoding and decoder are READ OFF the real Encode / Decode impls statement by statement on every run, both real bodies are verified against them, and the law is a generated lemma prop_record_<S> that fails as soon as encoder and decoder disagree in field list, field order or field type (a consistent change of both keeps verifying). Kani: complete CBMC proofs (all 2^64 / 2^128 values, unwinding assertions on) on the REAL codec files included by path: u64/u32 big-endian round trip with exact consumption inside a larger buffer, u64 order and injectivity of the encoding, U64ED encoding identical to u64 (block tables mix them), U128ED round trip and order, (block,index) composite key order, Option tag byte, tuple concatenation, and the fixed-width leaf codecs of the records: U8ED, B256ED, AddressED (quick) and U256ED, U512ED (thorough) round trip inside a larger buffer with exact consumption, for every bit pattern.",
-    "level_note": "Trusted: CBMC 6.11 / Kani 0.68 models of alloc and core, alloy-primitives 1.4.1 Uint::{as_limbs,from_limbs,from} as compiled. Harnesses are loop-free or bounded by the constant encoding width with unwinding assertions, hence complete, not bounded. In the Verus unit u32/u64 are assumed impls over be4/be8 (their laws are the Kani results). In the record lemmas the leaf codecs (U64ED, U8ED, U256ED, B256ED, B2048ED, AddressED, BytesED, String) are assumed to satisfy the law (the fixed-width ones are the Kani results); Vec values are identified with their element sequences (axiom_vec_ext / axiom_vec_of: vstd gives Vec no extensional equality); TraceED.calls: Vec<TraceED> is an assumed leaf in unit codec_trace (recursive type: its law is the induction hypothesis); fields a decoder re-creates instead of reading (TxED.chain_id / tx_type, TxReceiptED.effective_gas_price / transaction_type) are part of the domain of the law (the value must carry what the decoder re-creates; the constructors that guarantee it are not under proof). NOT covered: [T;N], BlockResponseED (Either + decode through ::new), RawBlock (alloy RLP), BytecodeED, BytesED / String bodies, U256/U512/Address/B256 bodies, the serde/JSON half of the statement.",
-    "assumptions": ["leaf codecs of the records (U64ED, U8ED, U256ED, B256ED, B2048ED, AddressED, BytesED, String) assumed to satisfy codec_law; fixed-width ones proved by Kani", "Vec values identified with their element sequences (axiom_vec_ext, axiom_vec_of)", "law of Vec<TraceED> assumed in unit codec_trace (induction hypothesis of a recursive type)", "stored TxED / TxReceiptED values carry the field values the decoder re-creates (set by ::new, not under proof)", "BlockResponseED, RawBlock, BytecodeED, [T;N] and wide integer / byte-array bodies not under proof", "serde/JSON round trip outside both tools", "history round trip is at map level (no extensional equality for BTreeMap in vstd)"],
+    "level_text": "Verus (unbounded): real impl bodies of the u8 / Option<T> / (T,U) codecs satisfy `encode appends exactly enc(v)` and `decode returns dec(bytes, offset)`, with the round-trip law codec_ok (decode of an encoding anywhere inside a buffer gives the value back and consumes exactly its bytes: lossless and self-delimiting) proved generically; Vec<T> (u32 length prefix) encode/decode bodies verified as trait impls, BlockHistoryCacheData<V> encode/decode bodies verified with round-trip lemmas over version maps; the law with a domain (codec_law: every storable value decodes back to itself, consuming exactly its bytes, anywhere in a buffer) proved for Option / pair / Vec and, by rule N37, for the record codecs AccountInfoED, LogED, TxED, TxReceiptED and TraceED: their abstract encoding and decoder are READ OFF the real Encode / Decode impls statement by statement on every run, both real bodies are verified against them, and the law is a generated lemma prop_record_<S> that fails as soon as encoder and decoder disagree in field list, field order or field type (a consistent change of both keeps verifying); the constructors TxED::new and TxReceiptED::new on their real bodies: every argument lands in the field of the same name and the fields the decoder re-creates instead of reading (chain id, transaction type, effective gas price) are set to exactly what the decoder re-creates, so the values the module stores are in the domain of the law. Kani: complete CBMC proofs (all 2^64 / 2^128 values, unwinding assertions on) on the REAL codec files included by path: u64/u32 big-endian round trip with exact consumption inside a larger buffer, u64 order and injectivity of the encoding, U64ED encoding identical to u64 (block tables mix them), U128ED round trip and order, (block,index) composite key order, Option tag byte, tuple concatenation, and the fixed-width leaf codecs of the records: U8ED, B256ED, AddressED (quick) and U256ED, U512ED (thorough) round trip inside a larger buffer with exact consumption, for every bit pattern.",
+    "level_note": "Trusted: CBMC 6.11 / Kani 0.68 models of alloc and core, alloy-primitives 1.4.1 Uint::{as_limbs,from_limbs,from} as compiled. Harnesses are loop-free or bounded by the constant encoding width with unwinding assertions, hence complete, not bounded. In the Verus unit u32/u64 are assumed impls over be4/be8 (their laws are the Kani results). In the record lemmas the leaf codecs (U64ED, U8ED, U256ED, B256ED, B2048ED, AddressED, BytesED, String) are assumed to satisfy the law (the fixed-width ones are the Kani results); Vec values are identified with their element sequences (axiom_vec_ext / axiom_vec_of: vstd gives Vec no extensional equality); TraceED.calls: Vec<TraceED> is an assumed leaf in unit codec_trace (recursive type: its law is the induction hypothesis); fields a decoder re-creates instead of reading (TxED.chain_id / tx_type, TxReceiptED.effective_gas_price / transaction_type) are part of the domain of the law (the value must carry what the decoder re-creates; TxED::new / TxReceiptED::new are proved to establish it). NOT covered: [T;N], BlockResponseED (Either + decode through ::new), RawBlock (alloy RLP), BytecodeED, BytesED / String bodies, U256/U512/Address/B256 bodies, the serde/JSON half of the statement.",
+    "assumptions": ["leaf codecs of the records (U64ED, U8ED, U256ED, B256ED, B2048ED, AddressED, BytesED, String) assumed to satisfy codec_law; fixed-width ones proved by Kani", "Vec values identified with their element sequences (axiom_vec_ext, axiom_vec_of)", "law of Vec<TraceED> assumed in unit codec_trace (induction hypothesis of a recursive type)", "BlockResponseED, RawBlock, BytecodeED, [T;N] and wide integer / byte-array bodies not under proof", "serde/JSON round trip outside both tools", "history round trip is at map level (no extensional equality for BTreeMap in vstd)"],
 }
 
 NOT_APPLICABLE = {
